@@ -414,6 +414,17 @@ func enumSpace() []enumCase {
 			}
 		}
 	}
+	// the first families once more on a cold server (restart before the two clients start: no name cache, no cached
+	// inodes, so the requests read directories and inodes from the device inside their windows)
+	for _, op0 := range []cOp{{Kind: "remove", Dir: D, Name: "a"}, {Kind: "lookup", Dir: D, Name: "a"}, {Kind: "rename", Dir: D, Name: "a", Dir2: D, Name2: "b"}, {Kind: "rmdir", Dir: D, Name: "x"}} {
+		for _, prog := range [][]cOp{{{Kind: "create", Dir: D, Name: "b"}}, {{Kind: "create", Dir: D, Name: "c"}}, {{Kind: "mkdir", Dir: D, Name: "y"}},
+			{{Kind: "rename", Dir: D, Name: "a", Dir2: D, Name2: "c"}, {Kind: "create", Dir: D, Name: "a"}}, {{Kind: "create", Dir: D, Name: "b"}, {Kind: "remove", Dir: D, Name: "b"}}} {
+			for hook := 0; hook < 8; hook++ {
+				cases = append(cases, enumCase{Cold: true, Pre: []cOp{{Kind: "create", Dir: D, Name: "a"}, {Kind: "mkdir", Dir: D, Name: "x"}}, Op0: op0, Prog1: prog, Hook: hook})
+				cases = append(cases, enumCase{Cold: true, DiskPause: true, Pre: []cOp{{Kind: "create", Dir: D, Name: "a"}, {Kind: "mkdir", Dir: D, Name: "x"}}, Op0: op0, Prog1: prog, Hook: hook})
+			}
+		}
+	}
 	// a file reached through its handle while its name is removed, replaced or moved
 	wh := func(off uint64, n int, tag uint32) cOp {
 		return cOp{Kind: "writeh", Off: off, Data: string(patternData(tag, uint64(n))), Stable: 2}
@@ -488,7 +499,7 @@ func enumLin(t *testing.T, prop string, filter func(enumCase) bool) {
 		if !Thorough() && Hash(seed, i)%4 != 0 && !ec.HalfFreed && !ec.Sweep {
 			continue
 		}
-		if only := os.Getenv("VERIF_ENUM_ONLY"); (only == "sweep" && !ec.Sweep) || (only == "plus" && ec.Op0.Kind != "readdirplus" && ec.Op0.Kind != "setattrhm") {
+		if only := os.Getenv("VERIF_ENUM_ONLY"); (only == "sweep" && !ec.Sweep) || (only == "plus" && ec.Op0.Kind != "readdirplus" && ec.Op0.Kind != "setattrhm") || (only == "cold" && (!ec.Cold || ec.HFile)) {
 			continue // (debugging aid: one family of cases)
 		}
 		size := uint64(9000)
@@ -620,6 +631,9 @@ func TestC03BigSet(t *testing.T) {
 		if err := w.addExtras(160); err != nil {
 			failf(t, "C03", nil, "setup: %v", err)
 		}
+		if rapid.Bool().Draw(t, "cold") {
+			w.S.Restart()
+		}
 		nwriters, nsweepers := rapid.IntRange(2, 4).Draw(t, "writers"), rapid.IntRange(1, 3).Draw(t, "sweepers")
 		var tag uint32
 		var progs [][]cOp
@@ -637,7 +651,7 @@ func TestC03BigSet(t *testing.T) {
 		for c := 0; c < nsweepers; c++ {
 			var prog []cOp
 			for i := 0; i < rapid.IntRange(2, 5).Draw(t, "nsweeps"); i++ {
-				prog = append(prog, cOp{Kind: "sweep"})
+				prog = append(prog, cOp{Kind: "sweep", Off: rapid.Uint64Range(0, 1000).Draw(t, "rotation")})
 			}
 			progs = append(progs, prog)
 		}
